@@ -240,6 +240,17 @@ class Round(Op):
                 m = oracle.MODES[k % 4]
                 pt = gen_point(rng, m, decimals=False, outside=0)
                 yield (m, (pt[0], False, False, ("u",)), pt[:10] + (h, mi))
+        # the smallest and largest six-digit fractions on every whole value of their unit (whether a fraction is
+        # printed must not depend on the size of the number it is attached to)
+        for unit, top in (("s", 60), ("m", 60), ("h", 24)):
+            for v in gens.shard_filter(list(range(top)), self.shard):
+                for digits in ("000001", "999999", "000010", "5", "1"):
+                    if tier == "quick" and digits in ("000010", "5") and v % 4:
+                        continue
+                    hh, mi, ss = (rng.randint(0, 23), rng.randint(0, 59), v) if unit == "s" else \
+                        ((rng.randint(0, 23), v, None) if unit == "m" else (v, None, None))
+                    pt = (0, "c", 2021, 3, 9, hh, mi, ss, unit, digits, *rng.choice([(0, 0), (5, 30), (-3, -30)]))
+                    yield ("greg", (0, False, False, ("a", 0, 0)), pt)
         for ned in (0, 2, 3):
             for y in YEARS[ned] + OUTSIDE[ned]:
                 for rep in "cow":
